@@ -88,6 +88,10 @@ class GeminiServerProtocol(asyncio.Protocol):
         self.url_line_received = False
         self.awaiting_titan_content = False
 
+        # Set once a response (or the timeout reply) has been written: exactly
+        # one response is sent per connection, later input is ignored
+        self.response_sent = False
+
     def connection_made(self, transport: asyncio.BaseTransport) -> None:
         """Called when a client connects.
 
@@ -126,6 +130,10 @@ class GeminiServerProtocol(asyncio.Protocol):
             data: Raw bytes received from the client.
         """
         self.buffer += data
+
+        # The connection has already been answered and closed
+        if self.response_sent:
+            return
 
         # State 1: Waiting for URL line (Gemini or Titan)
         if not self.url_line_received:
@@ -250,7 +258,7 @@ class GeminiServerProtocol(asyncio.Protocol):
         Args:
             response: The response to send.
         """
-        if not self.transport:
+        if not self.transport or self.response_sent:
             return
 
         # Calculate request duration
@@ -294,6 +302,7 @@ class GeminiServerProtocol(asyncio.Protocol):
             else:
                 body = response.body.encode("utf-8")
 
+        self.response_sent = True
         self.transport.write(header)
         if body:
             self.transport.write(body)
@@ -316,7 +325,11 @@ class GeminiServerProtocol(asyncio.Protocol):
 
     def _handle_timeout(self) -> None:
         """Handle request timeout."""
-        if self.transport and not self.transport.is_closing():
+        if (
+            self.transport
+            and not self.response_sent
+            and not self.transport.is_closing()
+        ):
             if self.request_start_time:
                 duration = time.time() - self.request_start_time
             else:
@@ -328,6 +341,7 @@ class GeminiServerProtocol(asyncio.Protocol):
             )
             # Send timeout response
             response = "40 Request timeout\r\n"
+            self.response_sent = True
             self.transport.write(response.encode("utf-8"))
             self.transport.close()
 
@@ -453,10 +467,18 @@ class GeminiServerProtocol(asyncio.Protocol):
             allow, error_response = task.result()
 
             if not allow:
-                # Middleware rejected request - send error response
-                if self.transport and error_response:
-                    self.transport.write(error_response.encode("utf-8"))
-                    self.transport.close()
+                # Middleware rejected request - send its error response
+                if error_response:
+                    if self.transport and not self.response_sent:
+                        rejection = error_response.encode("utf-8")
+                        self.response_sent = True
+                        self.transport.write(rejection)
+                        self.transport.close()
+                else:
+                    # Rejected without a response text: still answer and close
+                    self._send_error_response(
+                        StatusCode.TEMPORARY_FAILURE, "Request rejected"
+                    )
                 return
 
             # Middleware allowed request - continue routing
